@@ -21,7 +21,8 @@ THEOREMS = [
 ]
 RULE = ("one stream per documented precondition, each violating exactly that precondition by the smallest margin and "
         "grossly with the offending ballot first / in the middle / last, plus the accepting boundary value: ballot "
-        "without ranking (12 ranking rules), tied position (STV family), non-integer weight (PluralityVeto, "
+        "without ranking (12 ranking rules), tied position (STV family), non-integer weight - one ballot perturbed, or two "
+        "ballots with the same ranking whose fractional weights add up to a whole number - (PluralityVeto, "
         "random_transfer), missing scores (6 score rules), m in {0,-1,n+1,n+5} and m=n (13 rules), Alaska stage "
         "sizes, negative / increasing score vectors (3 entry points), L<=0, k<=0, L>k, Limited k>m, unknown quota, "
         "generator bloc proportions / cohesion sums off by 1e-7 (rejected) and 1e-10 (accepted), mismatched bloc "
